@@ -225,6 +225,18 @@ func settle() { time.Sleep(30 * time.Millisecond) }
 // invariant checks what the monitors saw after a raw exchange.
 // wantExactly >= 0: exactly one request of that size must have been processed.
 func invariant(c *h.Case, m *monitor, kind, variant string, limit, wantExactly int, rep map[string]interface{}) {
+	if wantExactly >= 0 {
+		// on a loaded machine the service may be late: wait (up to 5 s) for the request that must arrive
+		for i := 0; i < 500; i++ {
+			m.mu.Lock()
+			k := len(m.ioLens)
+			m.mu.Unlock()
+			if k >= 1 {
+				break
+			}
+			time.Sleep(10 * time.Millisecond)
+		}
+	}
 	ioLens, _ := m.take()
 	c.R.Eval(1)
 	for _, l := range ioLens {
